@@ -34,7 +34,7 @@ CHECKS.update({
     "C16": ("explicit-state enumeration of rule-boundary configurations (full products per builder type) executed on the real code; comparison with a reference representability predicate; list lengths where an 8/16-bit count wraps (256.., 65536..), prefixes on non-PRIV items, multi-byte texts around the 255-byte limit",
             "Every rule parameter is taken to limit-1/limit/limit+1/type-max in full products per builder type (so all pairs of violated rules occur); calculate_size must accept exactly the representable configurations and name a violated rule otherwise. Oversize packets accepted by five builder types are recorded known findings.",
             TRUSTED, "3 (C16)"),
-    "C17": ("explicit-state enumeration of writer targets x buffer lengths executed on the real code under two complementary prefill patterns; every configuration additionally in the probed flavour, and through the public write_into_unchecked with buffers of n, n+4, n+12 bytes",
+    "C17": ("explicit-state enumeration of writer targets x buffer lengths executed on the real code under two complementary prefill patterns and under buffers that already hold part of the image (the image with the bytes at each of the 16 residue sets mod 4 inverted, with all but the first and last byte inverted, with one byte inverted); every configuration additionally in the probed flavour, and through the public write_into_unchecked with buffers of n, n+4, n+12 bytes",
             "Each (target, buffer length) is written twice into buffers pre-filled with a position-dependent pattern and its complement; claimed bytes must agree, bytes beyond must keep their prefill, failed writes must leave the buffer untouched. Exhaustive inside the bounds.",
             TRUSTED, "3 (C17)"),
 })
@@ -43,10 +43,10 @@ CHECKS.update({
     "C08": ("exhaustive enumeration of byte strings (header product space, k<=2 byte substitutions of a base set, truncations/extensions) fed to every typed parser of the real code; accepted strings checked against a reference header reader; the same judgement applied to every packet handed out by Compound iteration (against its own tile), over giants and all 1-3-tile datagrams as well",
             "Every string of the stated spaces goes through the 7 typed parsers, Packet::parse and Unknown::parse; any acceptance of an ill-framed string, or a header accessor disagreeing with the header bytes, is a violation. Exhaustive inside the bounds.",
             TRUSTED, "3 (C08)"),
-    "C09": ("exhaustive enumeration of reference-encoded packets over walk alphabets and of arbitrary strings; accessor results compared with independent big-endian reads and pointer ranges of the caller's buffer; derived accessors (string forms, header_data) and the utils::parser field readers compared with the primary bytes, also on slices running past the packet; SR/RR with profile-specific extensions; iterator call histories on report_blocks / ssrcs",
+    "C09": ("exhaustive enumeration of reference-encoded packets over walk alphabets and of arbitrary strings; accessor results compared with independent big-endian reads and pointer ranges of the caller's buffer (empty slices included: they must point into the input); derived accessors (string forms, header_data) and the utils::parser field readers compared with the primary bytes, also on slices running past the packet; SR/RR with profile-specific extensions; iterator call histories on report_blocks / ssrcs",
             "Well-formed packets from the independent encoder must be accepted and every accessor must equal the reference read at the RFC offset; every returned slice is checked by pointer arithmetic to lie in the input at the expected offset; arbitrary accepted strings get the same scalar and containment checks.",
             TRUSTED, "3 (C09)"),
-    "C10": ("exhaustive enumeration of all SDES-framed strings with short bodies over a small alphabet plus reference-encoded packets and their k<=2 substitutions; three-valued reference tokeniser compared with the real parser on every string; iterator call histories on chunks() / items(); a parsed value must equal a fresh parse after its accessors were called",
+    "C10": ("exhaustive enumeration of all SDES-framed strings with short bodies over a small alphabet plus reference-encoded packets and their k<=2 substitutions; three-valued reference tokeniser compared with the real parser on every string; iterator call histories on chunks() / items(); a parsed value must equal a fresh parse after its accessors were called; the same packet reached by seven routes (clone, clone of a clone, Packet::try_as, TryFrom<&Packet>, TryFrom<Packet>, Unknown::try_as, Compound) must read the same",
             "All SDES bodies of 1-3 words over the stated alphabets (complete), every well-formed SDES of the C03 spaces, and deviations thereof are classified must-accept / must-reject / either / unconstrained by an independent tokeniser and compared with Sdes::parse and its accessors, including chunk lengths.",
             TRUSTED, "3 (C10)"),
     "C11": ("explicit-state exploration: all tile sequences up to a depth x tail variants and all short byte strings; the real iterator is stepped in lock-step with a two-variable model (tile index, done) on every next() call including calls after exhaustion; iterator call histories (next / nth / take-count x collect / count / last) on the compound of every 1-3-tile sequence",
@@ -58,13 +58,13 @@ CHECKS.update({
     "C13": ("exhaustive enumeration packets x all 63 legal paddings applied by an independent reference padder; content accessors of the padded packet compared with those of the unpadded one; also packets of 65280..261888 bytes, SR/RR carrying extensions, padding requested from the crate's own builders, and every padded packet read back through Compound::parse alone and followed by another packet",
             "Every unpadded well-formed packet of the base set and of a stride through every configuration space is padded by the reference padder with every amount 4..=252; acceptance, padding() and all content accessors (blocks, chunks/items, sources/reason, payload, FCI entries) are compared.",
             TRUSTED, "3 (C13)"),
-    "C14": ("explicit-state enumeration of all member lists up to a depth over a 20-kind menu (incl. nested compounds, wrapped and third-party members), all pairs of base-set packets and all lists of up to 3 members at the size limits (262144 / 262140 / 65536 / 65532 bytes) executed on the real code; reference predicate and concatenation oracle, then parse-back in lock-step; every list also added to a compound builder that is queried after every add_packet, and written through write_into_unchecked into a larger buffer",
+    "C14": ("explicit-state enumeration of all member lists up to a depth over a 20-kind menu (incl. nested compounds, wrapped and third-party members), all pairs of base-set packets and all lists of up to 3 members at the size limits (262144 / 262140 / 65536 / 65532 bytes) executed on the real code; reference predicate and concatenation oracle, then parse-back in lock-step; every list also added to compound builders that are queried after every add_packet / after all but the last of each (nested) builder / only at the start, and written through write_into_unchecked into a larger buffer",
             "For every list: accept iff the reference predicate says so, size = sum, bytes = concatenation of the members' own images, Compound::parse + iteration yields each leaf equal to the leaf parsed alone.",
             TRUSTED, "3 (C14)"),
-    "C15": ("exhaustive enumeration of FCI words/bodies (quick: 118 PIDs x all 65536 bitmasks; thorough: all 2^32 NACK and SLI words) of all (kind, format, FCI type) gates, of FCI byte strings delimited by padding counts that are not multiples of 4, and of lists up to the 65533-word maximum; reference decoder compared with the real iterators; iterator call histories on Nack::entries / Fir::entries / Sli::lost_macroblocks (with and without a trailing partial entry)",
+    "C15": ("exhaustive enumeration of FCI words/bodies (quick: 118 PIDs x all 65536 bitmasks; thorough: all 2^32 NACK and SLI words) of all (kind, format, FCI type) gates, of FCI byte strings delimited by padding counts that are not multiples of 4, and of lists up to the 65533-word maximum; reference decoder compared with the real iterators; iterator call histories on Nack::entries / Fir::entries / Sli::lost_macroblocks (with and without a trailing partial entry; lists of 33..376 words / entries); PLI bodies of every length 0..=256 in 8 fills incl. unannounced padding trailers",
             "Every explored FCI body is decoded by the real parse_fci + iterators and by the reference decoder; gating is checked for 2 kinds x 32 formats x 5 types; the FCI parsers are also driven directly at every length 0..=40.",
             TRUSTED, "3 (C15)"),
-    "C18": ("exhaustive enumeration of byte strings fed to every parser of the real code; every returned error compared with facts read from the input by a reference header reader; errors yielded by Compound iteration judged against their own tile; errors of every conversion between packet types (by reference, by value, try_as)",
+    "C18": ("exhaustive enumeration of byte strings fed to every parser of the real code; every returned error compared with facts read from the input by a reference header reader; errors yielded by Compound iteration judged against their own tile; errors of every conversion between packet types (by reference, by value, try_as), also from bare and wrapped unknown packets shorter than the target's minimum",
             "Every Err from the 7 typed parsers, Packet, Unknown, Compound (+iteration), ReportBlock and the 5 FCI parsers is checked for truthfulness of its payload, and the two must-cases (shorter than minimum; length field mismatch) are checked for the exact error.",
             TRUSTED, "3 (C18)"),
 })
@@ -88,6 +88,27 @@ PARSE_SIDE = {"C01", "C08", "C09", "C10", "C11", "C12", "C13", "C15", "C18", "C1
 BUILD_SIDE = {"C02", "C03", "C04", "C05", "C06", "C07", "C14", "C16", "C17", "C19", "C20"}
 CHILD = {"C01", "C08", "C10", "C11", "C12", "C18"}
 ITER = {"C01", "C02", "C03", "C04", "C05", "C09", "C10", "C11", "C14", "C15"}
+ROUNDTRIP = {"C02", "C03", "C04", "C05"}
+DENSE = {
+    "C01": "tiles per datagram (x 4 tails) and exactly framed packet sizes in words (x 9 types x 4 padding variants; 600 / 2304 words here)",
+    "C03": "items per SDES chunk",
+    "C04": "APP payload words; the BYE reason length x last byte product (126 x 127)",
+    "C05": "NACK words, SLI entries, FIR entries, RPSI bytes",
+    "C06": "SDES items, NACK words, SLI / FIR entries, RPSI bytes, APP / unknown payload words (0..=2304) and compound members (1..=450, thorough 1200)",
+    "C07": "SDES items, NACK words, SLI / FIR entries, RPSI bytes, APP / unknown payload words (0..=2304) and compound members (1..=450, thorough 1200)",
+    "C16": "SDES items, NACK words, SLI / FIR entries, RPSI bytes, APP / unknown payload words (0..=2304) and compound members (1..=450, thorough 1200)",
+    "C17": "SDES items, NACK words, SLI / FIR entries, RPSI bytes, APP / unknown payload words (0..=2304) and compound members (1..=450, thorough 1200)",
+    "C08": "tiles per datagram (x 4 tails) and exactly framed packet sizes in words (x 9 types x 4 padding variants)",
+    "C12": "tiles per datagram (x 4 tails) and exactly framed packet sizes in words (x 9 types x 4 padding variants)",
+    "C18": "tiles per datagram (x 4 tails) and exactly framed packet sizes in words (x 9 types x 4 padding variants)",
+    "C09": "well-formed packets per datagram (all accepted, tile by tile); APP / unknown payload words",
+    "C10": "items per SDES chunk (reference images)",
+    "C11": "tiles per datagram x 4 tails, in lock-step with the model",
+    "C13": "SDES items, NACK words, SLI / FIR entries, RPSI bytes, APP / unknown payload words of the padded packets (a stride through each space)",
+    "C14": "compound members 1..=1200 (thorough 4096): flat, last member padded, nested",
+    "C19": "third-party / unknown members per compound 1..=1200 (thorough 4096); unknown payload words",
+    "C20": "FIR / NACK list lengths 1..=320 (thorough 1100) x the position of the element added again (every position)",
+}
 
 def main():
     props = [json.loads(l) for l in open(os.path.join(HERE, "properties.jsonl"))]
@@ -105,7 +126,11 @@ def main():
             if pid in CHILD and pid != "C01":
                 tech += "; the long inputs (giants, giant runs and chunks, long chains) explored a second time in a child process built with the subject unoptimised, fatal signals caught"
             if pid in ITER:
-                tech += "; iterator call histories with size_hint() after every call and the endings for-loop / count / last / nth / collect / fold / for_each / position / max_by_key / skip+step_by"
+                tech += "; iterator call histories with size_hint() after every call and the endings for-loop / count / last / nth / collect / fold / for_each / position / max_by_key / skip+step_by, and a second pass in which size_hint(), an observation ({:?} of the iterator, other values parsed and iterated) and a second iterator over the same value are operations placed anywhere in the history"
+            if pid in DENSE:
+                tech += "; every-count spaces: every value 0..=2304 (thorough 8192) of " + DENSE[pid]
+            if pid in ROUNDTRIP:
+                tech += "; every built packet also written among other members (10 embedding contexts incl. nested compounds whose members have the sizes of the preceding packets in another order), the same writer used again (too-small buffer, second size, second and larger write), a sibling configuration of the same shape built, written and dropped first, a refusal asked again, an illegal padding set as the last call after the builder was queried; the re-set flavour gives report-block setters, the BYE reason and the PRIV prefix an illegal value first"
             checks.append({
                 "property_id": pid,
                 "quick_cmd": f"./check {pid} quick",
